@@ -1,13 +1,14 @@
 import os, sys
 sys.path.insert(0, os.path.dirname(os.path.dirname(os.path.abspath(__file__))))
-from srcgen import regen_src  # pre-build generator: pure Go functions -> Gen/SrcPure.v
+from srcgen import regen_src
+from srcreplay import replay_src  # translated source run in Coq vs the real outputs  # pre-build generator: pure Go functions -> Gen/SrcPure.v
 sys.path.insert(0, os.path.dirname(os.path.dirname(os.path.abspath(__file__))))
 import coqreplay as _coqreplay
 
 PROP = {
     "coq": ["C02", "Findings", "C02s"],
     "pre": [regen_src],
-    "extra": [_coqreplay.replay_cc],
+    "extra": [_coqreplay.replay_cc, replay_src({'explen'})],
     "exhaustive": False,
     "rule": "For generated valid requests of all 30 calls (MBAP and RTU framing): the valid reply, the valid reply plus trailing "
             "bytes, single-field corruptions (txn, protocol id, length, unit, function code, exception bit, byte count, data, echo "
